@@ -136,6 +136,7 @@ def check(run):
         o.check(ok, "ShredIndex::new|bounded", "ShredIndex::new returns Some only below TOTAL_SHREDS", nb_.span)
 
     ob_fa1_phase1(run, "O17.5")
+    ob_decay_cap(run, "O17.6")
 
 
 def ob_fa1_phase1(run, oid):
@@ -146,9 +147,9 @@ def ob_fa1_phase1(run, oid):
                     "both constructors; sample_quorum always emits the required seats",
                "a validator holding f of the stake is guaranteed floor(f*k) seats only through required_samples: a skipped validator, another formula or a "
                "constructor deviating from its sibling silently drops the guarantee", floor=16)
-    ctors = sorted(d for d in prog.bodies if d.startswith(SS + "FaitAccompli1Sampler::new_with_") and "{" not in d)
-    if len(ctors) < 2:
-        o.missing("two FaitAccompli1Sampler::new_with_* constructors")
+    ctors = sorted(d for d in prog.bodies if (d.startswith(SS + "FaitAccompli1Sampler::new_with_") or d == SS + "FaitAccompli2Sampler::new") and "{" not in d)
+    if len(ctors) < 3:
+        o.missing("FaitAccompli1Sampler::new_with_* (2) and FaitAccompli2Sampler::new")
     shapes = {}
     for d in ctors:
         b = prog.bodies[d]
@@ -156,10 +157,11 @@ def ob_fa1_phase1(run, oid):
         fn = d.rsplit("::", 1)[-1]
         ext = [c for c in b.calls() if c.name.endswith("Extend<T>>::extend") or c.name.rsplit("::", 1)[-1] == "extend"]
         sub = [c for c in b.calls() if c.name.rsplit("::", 1)[-1] == "sub_assign"]
-        if len(ext) != 1 or len(sub) != 1:
-            o.fail(key + "|phase1-sites", "expected exactly one required_samples.extend and one stake -= in the constructor", b.span, {"extend": len(ext), "sub_assign": len(sub)})
+        fa2 = "FaitAccompli2Sampler" in d
+        if len(ext) != 1 or (len(sub) != 1 and not fa2):
+            o.fail(key + "|phase1-sites", "expected exactly one required_samples.extend (and, for FA1, one stake -=) in the constructor", b.span, {"extend": len(ext), "sub_assign": len(sub)})
             continue
-        e, s = ext[0], sub[0]
+        e, s = ext[0], (sub[0] if sub else None)
         et = b.operand_term(e.args[1])
         rng = [x for x in mir.walk(et) if isinstance(x, tuple) and x and x[0] == "agg" and "Range" in str(x[1])]
         # the count: end of the 0..samples range
@@ -190,6 +192,11 @@ def ob_fa1_phase1(run, oid):
         zero_start = any(isinstance(x, tuple) and x and x[0] == "const" and x[2] == 0 for x in mir.walk(et)) and K.mentions_call(et, "map")
         o.check(zero_start, key + "|one-id-per-seat", "required_samples.extend((0..seats).map(|_| v.id))", e.span)
         recv = b.operand_term(e.args[0])
+        if s is None:
+            extra = DET.extra_guards(prog, b, e.bb, [])
+            o.check(not extra, key + "|extend|unconditional", "applied to every validator of the set (no condition skips one)", e.span, {"extra": G.atoms_show(extra)})
+            shapes[d] = (mir.show(et).replace(fn, "FN").replace("FaitAccompli2Sampler::new", "FN"), None)
+            continue
         # weight removed: Stake::new(seats * total / k) with the same seats term
         st = b.operand_term(s.args[1])
         ok2 = False
@@ -216,9 +223,13 @@ def ob_fa1_phase1(run, oid):
                 isinstance(x, tuple) and x and x[0] == "bin" and x[1].startswith("Sub") for x in mir.walk(kt))
         o.check(okk, key + "|fallback-size=k-required", "the fallback sampler is built for k - required_samples.len() seats", b.span)
     if len(shapes) >= 2:
-        vals = list(shapes.values())
-        o.check(all(v == vals[0] for v in vals), "FaitAccompli1Sampler|constructors-agree", "both constructors compute seats and removed weight by the same expression", "",
+        import re as _re
+        norm = lambda x: _re.sub(r"closure<[^>]*>", "closure", x) if x else x
+        vals = [v for v in shapes.values()]
+        o.check(all(norm(v[0]) == norm(vals[0][0]) for v in vals), "FaitAccompli|constructors-agree|seats", "all Fait-Accompli constructors compute the guaranteed seats by the same expression", "",
                 {"constructors": [fshort(x) for x in shapes]})
+        subs = [norm(v[1]) for v in vals if v[1]]
+        o.check(len(subs) >= 2 and all(x == subs[0] for x in subs), "FaitAccompli1Sampler|constructors-agree|removed-weight", "both FA1 constructors remove the same weight", "")
     # sample_quorum: the required seats are always part of the committee
     sqs = [x for d, x in prog.bodies.items() if d.startswith("<" + SS + "FaitAccompli1Sampler<") and d.endswith("QuorumSamplingStrategy>::sample_quorum")]
     if not sqs:
@@ -238,3 +249,65 @@ def ob_fa1_phase1(run, oid):
         o.check(okr, "sample_quorum|fallback-fills-rest", "the remaining seats come from the fallback sampler whenever fewer than k are required", b.span)
     w = K.all_field_writers(prog, SS + "FaitAccompli1Sampler").get("required_samples", {})
     o.check(not w, "FaitAccompli1Sampler.required_samples|immutable", "required_samples is never written after construction", "", {"writers": [fshort(x) for x in w]})
+
+
+def ob_decay_cap(run, oid):
+    """without-replacement decay: a validator is accepted with probability 1 - count/max_samples, its count is incremented on every
+    acceptance, under one lock, so that it can never be returned once count >= max_samples (seat cap ceil(max_samples))"""
+    prog = run.program("lib")
+    o = run.ob(oid, "decaying acceptance: returned only when random >= count[sample] / max_samples, and count[sample] += 1 on exactly that path, under one lock",
+               "the seat cap ceil(max_samples) rests on p_reject reaching 1 once the counter reaches max_samples: a missing or misplaced increment, another "
+               "index, an inverted test or a second lock acquisition in between lets a validator exceed its cap", floor=6)
+    b = prog.body(SS + "DecayingAcceptanceSampler::sample_one")
+    if b is None:
+        o.missing("DecayingAcceptanceSampler::sample_one")
+        return
+    rets = [d for d in b.defs().get(0, []) if d[0] == "stmt"]
+    o.check(len(rets) == 1, "sample_one|single-return-site", "one return site (besides the rejection-budget panic)", b.span)
+    if len(rets) != 1:
+        return
+    rbb = rets[0][1]
+    rt = b.rvalue_term(rets[0][3]["rv"])
+    samp = [c for c in b.calls() if c.name.endswith("SamplingStrategy>::sample") and K.mentions_field(b.operand_term(c.args[0]), "stake_weighted")]
+    o.check(len(samp) == 1 and K.peel(rt)[0] == "call" and K.peel(rt)[3] == samp[0].bb, "sample_one|returns-the-draw", "the value returned is the draw from the stake-weighted sampler", rets[0][3].get("sp", ""))
+    atoms = G.guard_atoms(b, rbb, prog)
+    acc = [a for a in atoms if a[0] == "lt" and K.mentions_call(a[1][0], "random") and K.mentions_field(a[1][1], "max_samples")]
+    ok = len(acc) == 1 and acc[0][2] is False
+    det = {"guards": G.atoms_show(atoms)}
+    if ok:
+        pr = K.peel(acc[0][1][1])
+        ok = pr[0] == "bin" and pr[1].startswith("Div") and K.is_field(pr[3], "max_samples") and K.mentions_field(pr[2], "sample_count") and samp and any(
+            isinstance(x, tuple) and x and x[0] == "call" and x[3] == samp[0].bb for x in mir.walk(pr[2]) if isinstance(x, tuple) and x and x[0] == "call" and len(x) > 3)
+    o.check(bool(ok), "sample_one|acceptance-test", "accepted exactly when !(random < count[draw] / max_samples)", rets[0][3].get("sp", ""), det)
+    extra = D_extra(prog, b, rbb, [lambda a: a[0] == "lt" and K.mentions_call(a[1][0], "random")])
+    o.check(not extra, "sample_one|acceptance-test|only-condition", "nothing else decides acceptance", rets[0][3].get("sp", ""), {"extra": G.atoms_show(extra)})
+    # the increment: count[draw] += 1 dominates the return, behind the same test
+    incs = []
+    for (bb, i, dst, rv, sp) in b.assignments():
+        if dst["p"] and dst["p"][0][0] == "d":
+            t = b.rvalue_term(rv)
+            tt = t[1] if isinstance(t, tuple) and t[0] == "field" and t[2] == "0" else t
+            if isinstance(tt, tuple) and tt[0] == "bin" and tt[1].startswith("Add") and K.const_eval(tt[3]) == 1:
+                base = b.local_term(dst["l"])
+                ds = [x for x in b.defs().get(dst["l"], []) if x[0] == "call"]
+                if len(ds) == 1:
+                    base = b.call_term(ds[0][1], ds[0][3])
+                if K.mentions_field(base, "sample_count") or K.mentions_call(base, "index_mut"):
+                    incs.append((bb, base, sp))
+    ok = len(incs) == 1 and (incs[0][0] == rbb or b.dominates(incs[0][0], rbb))
+    if ok:
+        base = incs[0][1]
+        ok = samp and any(isinstance(x, tuple) and x and x[0] == "call" and len(x) > 3 and x[3] == samp[0].bb for x in mir.walk(base))
+    o.check(bool(ok), "sample_one|increment-on-accept", "count[draw] += 1 on the accepting path, for the drawn validator", incs[0][2] if incs else b.span)
+    if incs:
+        extra = D_extra(prog, b, incs[0][0], [lambda a: a[0] == "lt" and K.mentions_call(a[1][0], "random")])
+        o.check(not extra, "sample_one|increment-on-accept|unconditional", "every acceptance increments (no further condition)", incs[0][2], {"extra": G.atoms_show(extra)})
+    locks = [c for c in b.calls() if c.name.endswith("Mutex::lock")]
+    o.check(len(locks) == 1 and b.dominates(locks[0].bb, rbb), "sample_one|one-lock", "test and increment happen under a single lock acquisition per try", locks[0].span if locks else b.span)
+    w = K.all_field_writers(prog, SS + "DecayingAcceptanceSampler").get("max_samples", {})
+    o.check(not w, "DecayingAcceptanceSampler.max_samples|immutable", "max_samples is never written after construction", "")
+
+
+def D_extra(prog, b, bb, rec):
+    from . import detectors as DET
+    return DET.extra_guards(prog, b, bb, rec)
